@@ -11,5 +11,7 @@ HARNESSES = [
     H("c07_memory_list::c07_app_none", desc="no application region: empty list", loops={"extend_with": 40, "alloc_from_array": 8}, expect_unsat_covers=("at least one region", "64-bit address")), A("c07_app_len1", "one 1-byte region"), A("c07_app_len7_len9", "two regions, 7 and 9 bytes"),
     A("c07_app_len8_len16", "two regions, 8 and 16 bytes"), A("c07_app_len32", "one 32-byte region"), A("c07_app_len16_len4", "a shorter region after a longer one"), A("c07_app_three", "three regions", "thorough"),
     A("c07_app_read_fails", "second region unreadable: hard error"),
+    H("c06_stacks::c06_fill_stack_capped_2k", desc="a shortened thread stack is recorded (thread record AND memory list) at the address its bytes were read from"),
+    H("c06_stacks::c06_fill_stack_uncapped", desc="an unshortened thread stack: same"),
     H("c06_stacks::c04_tl_1thread_crash", desc="instruction-pointer window and stack registration (thread list with crash context)", timeout=2400, loops=TL, est_gb=14, mem_gb=30, tier="thorough"),
 ]
